@@ -69,6 +69,22 @@ Proof. exact single_or_identical_sets_unchanged. Qed.
 Eval compute in "PA:C06_single_or_identical_sets_unchanged"%string.
 Print Assumptions C06_single_or_identical_sets_unchanged.
 
+(** The sender's power level used by the reverse topological power ordering does not depend on
+    whether the room creator is already cached (the cache is filled in hash-iteration order,
+    lib.rs:241-260) - for EVERY event that cites the create event, including one that cites several
+    power-levels events: no uniqueness hypothesis on the auth events.  Before the repair 2da10dd of
+    /repo the scan of the auth events stopped as soon as it had a power-levels event and knew the
+    creator, and this statement was false of the model of that code (found on the real code: 400
+    identical calls of [resolve], two different results). *)
+Theorem C06_sender_level_independent_of_creator_cache :
+  forall (st : store) (c : id) (ce : event) (cr : str),
+  h_create st c ce cr ->
+  forall n e, fetch st n = Some e -> In c (e_auth e) ->
+  level_of (power_level_for_sender st None n) = level_of (power_level_for_sender st (Some cr) n).
+Proof. exact plfs_cache_independent. Qed.
+Eval compute in "PA:C06_sender_level_independent_of_creator_cache"%string.
+Print Assumptions C06_sender_level_independent_of_creator_cache.
+
 (** The boundary: without H_create (the power event [$b] does not cite the create event) two
     enumerations of [graph.keys()] give different sorted lists, and with a permissive auth
     function different resolved maps.  (ruma's own [auth_check] rejects an event that does not
